@@ -137,6 +137,8 @@ class Body:
         self.argc = raw.get("argc", 0)
         self.coroutine = raw.get("coroutine")
         self.parent = prog.fix_path(raw["parent"]) if raw.get("parent") else None
+        self._promoted_raw = raw.get("promoted")
+        self._promoted = {}
         self._decoded = False
         self._blocks = None
         self._local_tys = None
@@ -281,6 +283,21 @@ class Body:
     def blocks(self):
         self._decode()
         return self._blocks
+
+    def promoted_expr(self, idx):
+        """Symbolic value of promoted constant `idx` (e.g. `&FunctionCode::Confirm`)."""
+        if idx in self._promoted:
+            return self._promoted[idx]
+        e = None
+        pr = self._promoted_raw
+        if pr is not None and idx < len(pr):
+            pb = Body(self.prog, {"path": "%s::promoted[%d]" % (self.path, idx), "strings": self.strings, "blocks": pr[idx], "locals": [], "dbg": [], "span": [0, 0]})
+            try:
+                e = Sym(pb).local_expr(0)
+            except Exception:
+                e = None
+        self._promoted[idx] = e
+        return e
 
     @property
     def local_tys(self):
@@ -471,6 +488,8 @@ class Program:
     def fix_path(self, p):
         if p is None:
             return None
+        if "::<" in p:
+            p = strip_turbofish(p)
         if p.startswith("crate::"):
             return self.crate + "::" + p[7:]
         if p == "crate":
@@ -551,6 +570,31 @@ class Program:
 
 class AnchorError(Exception):
     pass
+
+
+def strip_turbofish(p):
+    """`VecList::<T>::add` -> `VecList::add` (generic argument lists of path segments are dropped)."""
+    out = []
+    i = 0
+    n = len(p)
+    while i < n:
+        if p.startswith("::<", i):
+            depth = 0
+            j = i + 2
+            while j < n:
+                c = p[j]
+                if c == "<":
+                    depth += 1
+                elif c == ">" and p[j - 1] != "-":
+                    depth -= 1
+                    if depth == 0:
+                        break
+                j += 1
+            i = j + 1
+            continue
+        out.append(p[i])
+        i += 1
+    return "".join(out)
 
 
 class CallGraph:
@@ -651,6 +695,14 @@ class CallGraph:
 #   ('agg', adt, var, ((field, e)...)) ('closure', def, (captures...)) ('tuple', (..)) ('other', s)
 # refs / derefs / copies are transparent.
 MAX_DEPTH = 40
+# identity-like calls: provenance flows straight through them
+TRANSPARENT_CALLS = {
+    "std::ops::Deref::deref", "std::ops::DerefMut::deref_mut", "core::ops::Deref::deref", "core::ops::DerefMut::deref_mut",
+    "core::ops::deref::Deref::deref", "core::ops::deref::DerefMut::deref_mut",
+    "std::clone::Clone::clone", "core::clone::Clone::clone",
+    "std::convert::AsMut::as_mut", "std::convert::AsRef::as_ref", "core::convert::AsMut::as_mut", "core::convert::AsRef::as_ref",
+    "std::borrow::Borrow::borrow", "std::borrow::BorrowMut::borrow_mut", "core::borrow::Borrow::borrow", "core::borrow::BorrowMut::borrow_mut",
+}
 
 
 class Sym:
@@ -701,6 +753,8 @@ class Sym:
     def call_expr(self, t, depth=0, stack=()):
         callee = t.d.get("r") or t.d.get("f") or "<indirect>"
         args = tuple(self.operand_expr(a, depth + 1, stack) for a in t.d["args"])
+        if t.d.get("f") in TRANSPARENT_CALLS and len(args) == 1:
+            return args[0]
         if t.d.get("f") in ("std::future::Future::poll", "core::future::future::Future::poll", "core::future::Future::poll") and len(args) == 2:
             # `.await` desugaring: poll(Pin::new_unchecked(&mut into_future(X)), cx)
             x = args[0]
@@ -749,6 +803,10 @@ class Sym:
             c = o.const
             if "fn" in c:
                 return ("fn", c["fn"])
+            if "promoted" in c:
+                pe = self.body.promoted_expr(c["promoted"])
+                if pe is not None and pe[0] != "var":
+                    return pe
             if "v" in c:
                 return ("const", c["v"], c.get("def") or c.get("kty"))
             return ("const", None, c.get("def") or c.get("s"))
